@@ -633,7 +633,7 @@ func (w *world) run(k *Case) (line, impl string) {
 	cpath := strings.Contains(reqURL, "/"+provName+"/certificate/")
 	f["parsed"] = c.B(isParsed)
 	f["fresh"] = fmt.Sprint(in.id("nonce:" + fresh + "#fresh"))
-	line = fmt.Sprintf("req m=POST p=%s pid=%s pname=%s pknown=%s url=%s ct=%s cpath=%s parsed=%s fresh=%s tgt=%d tgt2=%d plok=%s deact=%s only=%s ckey=%d csame=%s "+
+	line = fmt.Sprintf("req v=2 m=POST p=%s pid=%s pname=%s pknown=%s url=%s ct=%s cpath=%s parsed=%s fresh=%s tgt=%d tgt2=%d plok=%s deact=%s only=%s ckey=%d csame=%s "+
 		"ns=%d ue=%s ac=%s alg=%d es=%s short=%d jwk=%s kid=%d kb=%d kpre=%s nonce=%d jurl=%s ver=%s pe=%s nl=%s accs=%s ord=%s az=%s ch=%s cert=%s",
 		f["p"], f["pid"], f["pname"], f["pknown"], f["url"], f["ct"], c.B(cpath), f["parsed"], f["fresh"], tgtN, tgt2N, c.B(plok), c.B(deact), c.B(only), ckey, c.B(csame),
 		ns, c.B(ue), ac, algN, c.B(es), short, jwkF, kidN, kbN, c.B(kpre), nonceN, jurl, verF, c.B(pe), c.B(nlBefore),
